@@ -1667,10 +1667,17 @@ func (c *DnsController) __updateDnsCacheDeadline(cacheKey string, host string, d
 		// Continue without pre-packed response - will fall back to Pack() on hit
 	}
 
+	// LRU recency belongs to the key, not to the entry object: a refreshed entry
+	// inherits the last access of the entry it replaces, a brand-new entry counts
+	// as used now (it is being fetched for a client).
+	newCache.lastAccessNano.Store(now.UnixNano())
 	var staleSideEffects *DnsCache
 	if oldValue, ok := c.dnsCache.Load(cacheKey); ok {
 		if oldCache, ok := oldValue.(*DnsCache); ok {
 			staleSideEffects = staleDnsSideEffects(oldCache, newCache)
+			if last := oldCache.lastAccessNano.Load(); last != 0 {
+				newCache.lastAccessNano.Store(last)
+			}
 		}
 	}
 
